@@ -22,6 +22,7 @@ PROP = "C02"
 LEVEL = "proof"
 FUNCS = [
     ("distributed_shampoo/distributed_shampoo.py", "DistributedShampoo._per_group_step_impl"),
+    ("distributed_shampoo/distributed_shampoo.py", "DistributedShampoo.step"),
     ("distributed_shampoo/distributed_shampoo.py", "DistributedShampoo._precondition_and_grafting"),
     ("distributed_shampoo/distributed_shampoo.py", "DistributedShampoo._compute_filtered_grad_list"),
     ("distributed_shampoo/distributed_shampoo.py", "DistributedShampoo._update_momentum"),
@@ -49,7 +50,11 @@ TARGETS = ("sgd", "adagrad", "rmsprop", "adam", "adamw")
 
 
 def cases(tier):
-    return [f"warmup/{t}" for t in TARGETS] + ["norm_transfer/sgd", "norm_transfer/ada", "wiring/grafting"]
+    cs = [f"warmup/{t}" for t in TARGETS] + ["norm_transfer/sgd", "norm_transfer/ada", "wiring/grafting"]
+    # contract of DistributedShampoo.step the trajectory claim relies on (every group with gradients gets exactly one group step with its
+    # own hyperparameters, groups without gradients are skipped and do not stop the loop): the C01 step/flags cases, re-discharged here
+    cs += [f"step/flags/g{a}{b}n{c}{d}" for a in "01" for b in "01" for c in "01" for d in "01"]
+    return cs
 
 
 def _R(n):
@@ -158,9 +163,13 @@ def _warmup_case(case):
         for c in sm.hyper_domain(h) + _correspondence(target, h):
             assume(c)
         blocks = sm.make_blocks(NB, graft=graft)
-        stub, gobj, step_t = sm.run_group_step(h, blocks, alias=False)
+        # a third block of the group WITHOUT gradient this step: present in the local (unmasked) grafting list only.  torch.optim skips a
+        # parameter whose grad is None entirely, so its second-moment state must not be touched (not even decayed).
+        inactive = SymTensor.array("V_inactive") if graft == "ada" else None
+        local = [blocks[0]["V"], inactive] + [b["V"] for b in blocks[1:]] if inactive is not None else None
+        stub, gobj, step_t = sm.run_group_step(h, blocks, alias=False, graft_local=local)
         oracle = torch_oracle(target, h, NB)
-        return h, blocks, oracle
+        return h, blocks, oracle, inactive
 
     paths = Explorer().run(fn)
     out = []
@@ -178,8 +187,13 @@ def _warmup_case(case):
             out.append(result(f"{func}/no-exception{tag}", func, "unknown" if p.outcome == "abort" else "violated", text=repr(p.value), case=case))
             continue
         okp += 1
-        h, blocks, oracle = p.value
+        h, blocks, oracle, inactive = p.value
         hyp = p.cond()
+        if inactive is not None:
+            out.append(prove(f"{func}/warmup.state-of-a-parameter-without-gradient-untouched{tag}", func, hyp,
+                             z3.And(z3.BoolVal(inactive.cell.version == 0), inactive.at(IDX) == z3.Select(z3.Array("V_inactive", z3.IntSort(), z3.RealSort()), IDX)),
+                             model_vars=mv, case=case, replay=dict(kind="warmup", target=target),
+                             text="a block of the group without gradient this step keeps its grafting second-moment state bit-for-bit (torch.optim skips parameters whose grad is None)"))
         for b in range(NB):
             # sqrt axiom instances for the oracle's sqrt terms
             tu = torch_update(target, b)
@@ -367,6 +381,9 @@ def _wiring_case(case):
 
 
 def run_case(case, tier, seed):
+    if case.startswith("step/flags"):
+        from checks import stepflags
+        return stepflags.run(case, tier)
     if case.startswith("warmup/"):
         return _warmup_case(case)
     if case.startswith("norm_transfer/"):
@@ -393,7 +410,10 @@ def _native_traj(target, seed, steps=4):
     maxdim = rng.choice([2, 3, 1024])
     merge = rng.choice([True, False])
     p1 = [torch.nn.Parameter(torch.randn(s, dtype=torch.float64)) for s in shapes]
-    p2 = [torch.nn.Parameter(p.detach().clone()) for p in p1]
+    p2_list = [torch.nn.Parameter(p.detach().clone()) for p in p1]
+    # several parameter groups with the same hyperparameters behave like one (the reference keeps a single group)
+    groups = 2 if len(shapes) >= 2 and rng.random() < 0.7 else 1
+    p2 = p2_list if groups == 1 else [dict(params=p2_list[:1]), dict(params=p2_list[1:])]
     common = dict(lr=lr, weight_decay=wd, max_preconditioner_dim=maxdim, use_merge_dims=merge, start_preconditioning_step=steps + 2,
                   precondition_frequency=steps + 2, preconditioner_dtype=torch.float64)
     if target == "sgd":
@@ -412,15 +432,29 @@ def _native_traj(target, seed, steps=4):
         ref = cls(p1, lr=lr, betas=(b1, b2), eps=eps, weight_decay=wd)
         opt = DistributedShampoo(p2, betas=(b1, b2), use_bias_correction=True, use_decoupled_weight_decay=(target == "adamw"),
                                  grafting_config=st.AdamGraftingConfig(beta2=b2, epsilon=eps), **common)
-    cfgd = dict(target=target, shapes=shapes, lr=lr, wd=wd, momentum=mom, nesterov=nest, betas=(b1, b2), eps=eps, maxdim=maxdim, merge=merge)
+    # gradient-presence pattern: torch.optim skips a parameter whose grad is None entirely, and so must the grafted warm-up.  For the
+    # bias-corrected Adam variants every gradient is present (Shampoo keeps one step counter per group — the property's own restriction).
+    if target in ("adam", "adamw"):
+        presence = [[True] * len(shapes) for _ in range(steps)]
+    else:
+        presence = [[rng.random() < 0.7 for _ in shapes] for _ in range(steps)]
+        presence[0] = [True] * len(shapes)
+        if len(shapes) >= 2 and steps >= 3:
+            presence[1][0] = False                      # the first parameter (= the whole first group, see below) has no gradient at step 2 ...
+            presence[1][1] = True                       # ... while a later group does
+            presence[2][0] = True
+    cfgd = dict(target=target, shapes=shapes, lr=lr, wd=wd, momentum=mom, nesterov=nest, betas=(b1, b2), eps=eps, maxdim=maxdim, merge=merge,
+                presence=presence, groups=groups)
     for t in range(steps):
-        for a, b in zip(p1, p2):
+        for j, (a, b) in enumerate(zip(p1, p2_list)):
             g = torch.randn(a.shape, dtype=torch.float64)
-            a.grad, b.grad = g.clone(), g.clone()
+            a.grad, b.grad = (g.clone(), g.clone()) if presence[t][j] else (None, None)
         ref.step()
         opt.step()
-        for j, (a, b) in enumerate(zip(p1, p2)):
-            if not torch.allclose(a, b, rtol=2e-5, atol=2e-6):  # lr and bias corrections are float32 tensors in the real step
+        for j, (a, b) in enumerate(zip(p1, p2_list)):
+            # lr and the bias corrections are float32 tensors in the real step: 1 - beta2^t with beta2 = 0.999 carries a relative error of
+            # ~5e-5 in float32, i.e. up to ~3e-5 * lr per step in the parameter (torch.optim computes them in float64)
+            if not torch.allclose(a, b, rtol=2e-5, atol=max(2e-6, 3e-4 * lr)):
                 return cfgd, f"step {t + 1}: parameter {j} differs from torch.optim.{target} by {float((a - b).abs().max()):.3e}"
     return cfgd, None
 
@@ -525,6 +559,17 @@ def replay_file(doc):
     if rp.get("kind") == "norm_native":
         cfgd, bad = _native_norm(rp["seed"])
         return bool(bad), f"{cfgd}: {bad}"
+    if rp.get("kind") == "stepflags":
+        from checks import stepflags
+        ok, detail = stepflags.replay_flags(rp, (doc.get("verifier_output") or {}).get("model") or {})
+        if ok:
+            return ok, detail
+        for t in ("sgd", "adagrad", "rmsprop"):
+            for k in range(12):
+                cfgd, bad = _native_traj(t, 7000 + k)
+                if bad:
+                    return True, f"{cfgd}: {bad}"
+        return False, detail
     if rp.get("kind") == "warmup":
         for k in range(12):
             cfgd, bad = _native_traj(rp["target"], 7000 + k)
